@@ -47,6 +47,8 @@ func (c *c08case) objTool() plugin.ObjTool {
 		return scriptObj{disasmFails: true}
 	case 2:
 		return scriptObj{}
+	case 3:
+		return scriptObj{stripped: true}
 	}
 	return nopObj{}
 }
@@ -135,13 +137,13 @@ func genC08Case(t *simrt.Tape) *c08case {
 	if t.Bool(K, 25) {
 		c.web = []string{"/top", "/peek?f=.", "/flamegraph", "/", "/?calltree=t", "/top?sort=cum", "/?g=lines", "/source?f=.", "/disasm?f=.", "/source?f=main"}[t.Choose(K, 10)]
 		if strings.HasPrefix(c.web, "/source") || strings.HasPrefix(c.web, "/disasm") {
-			c.objMode = t.Choose(K, 3)
+			c.objMode = t.Choose(K, 4)
 		}
 	} else {
 		cmd := []string{"-top", "-tree", "-peek=.", "-dot", "-callgrind", "-tags", "-traces", "-raw", "-proto", "-topproto", "-comments", "-text", "-list=.", "-svg", "-weblist=.", "-disasm=.", "-weblist=main|foo"}[t.Choose(K, 17)]
 		c.flags = append(c.flags, cmd)
 		if strings.Contains(cmd, "list") || strings.Contains(cmd, "disasm") {
-			c.objMode = t.Choose(K, 3)
+			c.objMode = t.Choose(K, 4)
 		}
 		if t.Bool(K, 30) {
 			c.flags = append(c.flags, "-call_tree")
